@@ -262,6 +262,13 @@ func init() {
 			}
 			return invDone, c.r.tt.Bool(c.r.threads[i+1].done)
 		},
+		"vMapOrder": func(c *intrCtx) (invResult, Value) {
+			// vMapOrder(false): iterate maps in one fixed order (checking code whose verdict cannot
+			// depend on the order); vMapOrder(true): explore orders as configured.
+			t := c.args[0].(*Term)
+			c.r.mapOrderOff = t.IsFalse()
+			return invDone, nil
+		},
 		"vRegister": func(c *intrCtx) (invResult, Value) { return invDone, nil },
 	}
 
